@@ -18,6 +18,7 @@ import (
 	"strings"
 	"sync"
 	"sync/atomic"
+	"time"
 
 	"github.com/gin-gonic/gin"
 	"github.com/gofiber/fiber/v2"
@@ -116,6 +117,9 @@ type wprobe struct {
 }
 
 func (p *wprobe) Close() error {
+	if p.rec == nil {
+		return nil // built in a scope whose context does not carry the recorder
+	}
 	atomic.AddInt32(&p.rec.closed, 1)
 	p.rec.add("WClosed")
 	if p.fail {
@@ -156,6 +160,64 @@ func touch(s godi.Scope) {
 
 var errMw = errors.New("middleware says no")
 
+// wInHandler, when set, runs inside the request handler of every integration (the request-cancellation probe)
+var wInHandler func(s godi.Scope)
+
+// cancelProbe (C13, through the integrations): the request's context is cancelled while the handler is running -
+// "cancelling the context a scope was created with closes that scope": the request scope must refuse further use
+// (and its instances be closed) within a bounded wait, while the handler is still running.
+func cancelProbe() ProbeReport {
+	rep := ProbeReport{}
+	names := []string{"net/http", "chi", "gin", "echo", "fiber"}
+	for integ := 0; integ < 5; integ++ {
+		rep.Rounds++
+		p := webProvider(false, false)
+		rec := &wrec{}
+		base, cancel := context.WithCancel(context.Background())
+		msg := "the handler did not run"
+		wInHandler = func(s godi.Scope) {
+			if s == nil {
+				msg = "no request scope in the handler"
+				return
+			}
+			cancel()
+			deadline := time.Now().Add(3 * time.Second)
+			for {
+				_, err := godi.Resolve[*wprobe](s)
+				if errors.Is(err, godi.ErrScopeDisposed) {
+					msg = ""
+					if atomic.LoadInt32(&rec.closed) != 1 {
+						msg = fmt.Sprintf("the request scope refuses use but its instance was closed %d times", atomic.LoadInt32(&rec.closed))
+					}
+					return
+				}
+				if time.Now().After(deadline) {
+					msg = fmt.Sprintf("the request scope is still usable 3s after the request's context was cancelled (Resolve: %v)", err)
+					return
+				}
+				time.Sleep(2 * time.Millisecond)
+			}
+		}
+		done := make(chan struct{})
+		go func() {
+			defer close(done)
+			runRequestCtx(integ, p, 1, 0, 0, rec, base)
+			cancel()
+			_ = p.Close()
+		}()
+		select {
+		case <-done:
+		case <-time.After(15 * time.Second):
+			msg = "the request, or the provider's Close after it, did not finish within 15s; " + msg
+		}
+		wInHandler = nil
+		if msg != "" {
+			rep.Bad = append(rep.Bad, names[integ]+": "+msg)
+		}
+	}
+	return rep
+}
+
 // runRequest performs one request through the given integration; rec comes in through the request context
 func runRequest(integ int, p godi.Provider, nmw int, exit, failAt int, rec *wrec) int {
 	return runRequestCtx(integ, p, nmw, exit, failAt, rec, context.Background())
@@ -174,6 +236,9 @@ func runRequestCtx(integ int, p godi.Provider, nmw int, exit, failAt int, rec *w
 			s, _ := godi.FromContext(r.Context())
 			rec.see(s, "WHandler")
 			touch(s)
+			if wInHandler != nil {
+				wInHandler(s)
+			}
 			switch exit {
 			case 2:
 				http.Error(w, "handler error", 500)
@@ -274,6 +339,9 @@ func runRequestCtx(integ int, p godi.Provider, nmw int, exit, failAt int, rec *w
 			s, _ := godi.FromContext(c.Request.Context())
 			rec.see(s, "WHandler")
 			touch(s)
+			if wInHandler != nil {
+				wInHandler(s)
+			}
 			switch exit {
 			case 2:
 				c.AbortWithStatus(500)
@@ -325,6 +393,9 @@ func runRequestCtx(integ int, p godi.Provider, nmw int, exit, failAt int, rec *w
 			s, _ := godi.FromContext(c.Request().Context())
 			rec.see(s, "WHandler")
 			touch(s)
+			if wInHandler != nil {
+				wInHandler(s)
+			}
 			switch exit {
 			case 2:
 				return echo.NewHTTPError(500, "handler error")
@@ -375,6 +446,9 @@ func runRequestCtx(integ int, p godi.Provider, nmw int, exit, failAt int, rec *w
 			}
 			rec.see(s, "WHandler")
 			touch(s)
+			if wInHandler != nil {
+				wInHandler(s)
+			}
 			switch exit {
 			case 2:
 				return fiber.NewError(500, "handler error")
@@ -703,11 +777,17 @@ func cmdWeb(args []string) {
 	out := fs.String("out", "", "")
 	thorough := fs.Bool("thorough", false, "")
 	corpus := fs.String("corpus", "", "")
+	cprobe := fs.Bool("cancelprobe", false, "")
 	fs.Parse(args)
 	_ = corpus
-	os.MkdirAll(*out, 0o755)
 	slog.SetDefault(slog.New(slog.NewTextHandler(io.Discard, nil)))
 	gin.DefaultWriter, gin.DefaultErrorWriter = io.Discard, io.Discard
+	if *cprobe {
+		b, _ := json.Marshal(cancelProbe())
+		fmt.Println(string(b))
+		return
+	}
+	os.MkdirAll(*out, 0o755)
 	cases := genWebCases(*seed, *n, *thorough)
 	for i := range cases {
 		func() {
